@@ -442,8 +442,18 @@ pub proof fn one_operation_per_method<C: ServerContext>(n: HttpRouterNode<C>, v:
     }
 }
 
-/// the text HttpRouterIter::path renders a route as ("/" + labels joined by "/"): format!/join, not verified
-pub uninterp spec fn render(route: Route) -> Seq<char>;
+/// the text of one label: a literal as it is, a variable in braces (whatever `format!` makes of the two templates)
+pub open spec fn seg_text(c: PathSegment) -> Seq<char> {
+    match c {
+        PathSegment::Literal(s) => s@,
+        PathSegment::VarnameSegment(s) => fmt_spec("{{{}}}"@, s@),
+        PathSegment::VarnameWildcard(s) => fmt_spec("{{{}:.*}}"@, s@),
+    }
+}
+/// the text a route is rendered as: "/" followed by the labels' texts joined by "/"
+pub open spec fn render(route: Route) -> Seq<char> {
+    fmt_spec("/{}"@, join_spec(Seq::new(route.len(), |i: int| seg_text(route[i])), "/"@))
+}
 
 /// what a `for` loop over the iterator sees: calling next() until it says None yields exactly what was ahead, in
 /// order (a consumer written only to show that next's contract is strong enough to conclude this; gen_openapi's
